@@ -196,6 +196,12 @@ def main(argv=None):
                 if r['status'] == 'covered':
                     hcov += 1
                 continue
+            if r['name'].startswith('@'):
+                # clause that belongs to specific properties only:  '@C08,C10:clause name'
+                tags, _, rest = r['name'][1:].partition(':')
+                if a.prop not in tags.split(','):
+                    continue
+                r = dict(r, name=rest)
             is_proof = (h.kind == 'proof')
             if is_proof:
                 n_obl += 1
